@@ -220,6 +220,8 @@ def gen_cases(tier, seed):
             ts_map = {k: rng.choice(TS_NAMES) for k in ("store", "find", "get", "move", "n")}
             ts_map[rng.choice(["store", "find", "n"])] = ts
         cases.append(gen_case(seed, idx, ts, recv_chunked, profile, rng.choice([6, 7, 8]), rng.randrange(64), ts_map))
+        if idx % 5 == 3:
+            cases[-1]["flip_recv_flag"] = True
     for i in range(6 if tier == "quick" else 100):
         cases.append({"concurrent": True, "seed": seed, "i": i, "k": rng.choice([3, 4, 6]), "m": 5, "max_pdu": rng.choice([0, 1024, 16382])})
     return cases
@@ -350,6 +352,19 @@ class Run:
             self.obs.append(rec)
 
     def observe_store(self, event, side):
+        """(the receive mode may be re-assigned at run time: with `flip_recv_flag` the handler runs while
+        _config.STORE_RECV_CHUNKED_DATASET has the opposite value of the one in force when the request arrived)"""
+        from pynetdicom import _config
+        if not self.case.get("flip_recv_flag"):
+            return self._observe_store(event, side)
+        orig = _config.STORE_RECV_CHUNKED_DATASET
+        _config.STORE_RECV_CHUNKED_DATASET = not orig
+        try:
+            return self._observe_store(event, side)
+        finally:
+            _config.STORE_RECV_CHUNKED_DATASET = orig
+
+    def _observe_store(self, event, side):
         rec = {"kind": "store", "side": side}
         try:
             req = event.request
